@@ -447,3 +447,48 @@ Example retain_example :
   op_retain (fun k x => if k =? 2 then Panic else Ret (Nat.even x)) (fun _ => false) [10; 11; 12; 13] =
   mkOutcome [10; 12; 13] [] [11] true 3.
 Proof. reflexivity. Qed.
+
+(* ---------------------------------------------------------------- zero-sized element types *)
+Theorem drain_zst_conserved dp l a b kf kb : conserved (op_drain_zst true dp l a b kf kb) l.
+Proof. unfold op_drain_zst. apply drain_conserved. discriminate. Qed.
+
+(* the pinned code dropped elements twice: three elements, drain(0..2) dropped unused *)
+Theorem drain_zst_pinned_refuted :
+  exists l a b kf kb, ~ conserved (op_drain_zst false (fun _ => false) l a b kf kb) l /\
+                      dropped (op_drain_zst false (fun _ => false) l a b kf kb) = [0; 1; 0; 1].
+Proof.
+  exists [0; 1; 2], 0, 2, 0, 0. split; [|vm_compute; reflexivity].
+  intros H. apply Permutation_length in H. vm_compute in H. discriminate.
+Qed.
+
+Lemma fill_go_spec cl : forall ids k made,
+  let '(m, p, _) := fill_go cl k made ids in
+  exists done rest, m = made ++ done /\ ids = done ++ rest /\ (p = false -> rest = []).
+Proof.
+  induction ids as [|x r IH]; intros k made; cbn [fill_go].
+  - exists [], []. rewrite app_nil_r. repeat split; reflexivity.
+  - destruct (cl k).
+    + exists [], (x :: r). rewrite app_nil_r. split; [reflexivity|]. split; [reflexivity|discriminate].
+    + specialize (IH (S k) (made ++ [x])). destruct (fill_go cl (S k) (made ++ [x]) r) as [[m p] k'].
+      destruct IH as (done & rest & E1 & E2 & E3). exists (x :: done), rest.
+      split; [rewrite E1, <- app_assoc; reflexivity|]. split; [cbn; f_equal; exact E2|exact E3].
+Qed.
+
+(* repaired alloc_slice_fill of a zero-sized type: every element that came into existence — the
+   clones made before a panic and the value — is kept or dropped exactly once *)
+Theorem fill_zst_conserved cl ids v :
+  exists done, Permutation (final (op_fill_zst true cl ids v) ++ yielded (op_fill_zst true cl ids v) ++ dropped (op_fill_zst true cl ids v)) (done ++ [v]) /\
+               exists rest, ids = done ++ rest /\ (unwound (op_fill_zst true cl ids v) = false -> rest = []).
+Proof.
+  unfold op_fill_zst. pose proof (fill_go_spec cl ids 0 []) as H. destruct (fill_go cl 0 [] ids) as [[m p] k].
+  destruct H as (done & rest & E1 & E2 & E3). cbn [app] in E1. subst m. exists done.
+  destruct p; cbn [final yielded dropped unwound app]; rewrite ?app_nil_r; (split; [apply Permutation_refl|]); exists rest; split; try exact E2; try discriminate.
+  intros _. apply E3. reflexivity.
+Qed.
+
+(* the pinned code lost the clones made before the panic: 3 clones wanted, the third panics *)
+Theorem fill_zst_pinned_refuted :
+  exists cl ids v, unwound (op_fill_zst false cl ids v) = true /\
+    final (op_fill_zst false cl ids v) ++ yielded (op_fill_zst false cl ids v) ++ dropped (op_fill_zst false cl ids v) = [v] /\
+    dropped (op_fill_zst true cl ids v) = [0; 1; v].
+Proof. exists (fun k => Nat.eqb k 2), [0; 1; 2], 9. vm_compute. repeat split; reflexivity. Qed.
